@@ -59,6 +59,7 @@ type agg struct {
 	leakFrames map[string]int
 	otherRules map[string]int
 	samples   []any
+	c12Bases, c12FullyEnumerated int
 }
 
 func newAgg() *agg {
@@ -216,8 +217,12 @@ func cmdCheck(prop, tier string) int {
 	batch := 256
 	for a.runs < budget.runs && time.Now().Before(deadline) && bad == nil && infra == "" {
 		var cases []*cf.Case
-		for i := 0; i < batch && a.runs+len(cases) < budget.runs; i++ {
-			cases = append(cases, gen.Generate(prop, rs.U64()))
+		if prop == "C12" {
+			cases = c12Batch(bin, rs, tier, a)
+		} else {
+			for i := 0; i < batch && a.runs+len(cases) < budget.runs; i++ {
+				cases = append(cases, gen.Generate(prop, rs.U64()))
+			}
 		}
 		runMany(bin, cases, par, func(o *outcome) bool {
 			if o.infra != "" {
@@ -474,6 +479,8 @@ func writeEvidence(spec *propSpec, tier string, seed uint64, a *agg, violations 
 		"runs_matching_known_findings": a.violRuns,
 		"known_findings_seen": kf,
 		"other_property_rules_seen": a.otherRules,
+		"c12_base_cases":      a.c12Bases,
+		"c12_base_cases_with_every_close_point_enumerated": a.c12FullyEnumerated,
 		"real_components":     spec.real,
 		"stub_components":     spec.stub,
 	}
@@ -495,3 +502,57 @@ func writeEvidence(spec *propSpec, tier string, seed uint64, a *agg, violations 
 func (s *propSpec) wantProbes() []string { return probeWants[s.id] }
 
 var probeWants = map[string][]string{}
+
+// c12Batch: C12 enumerates shutdown points. A base case of one scenario family is run once without a
+// close point to count its model events K; then the same case is re-run with close-at(k) for every
+// k <= K (thorough) or a sample of them (quick), each with delta 0 and "half the gap to the next event".
+func c12Batch(bin string, rs *cf.Rng, tier string, a *agg) []*cf.Case {
+	var out []*cf.Case
+	for len(out) < 128 {
+		fam := []string{"C01", "C01", "C03", "C03", "C07", "C07", "C06", "C15"}[rs.Intn(8)]
+		base := gen.Generate(fam, rs.U64())
+		base.Property = "C12"
+		if base.Config.Idempotent {
+			continue // the idempotent producer's retry path is judged (and found wanting) under C01/C05
+		}
+		if f := base.Config.Flush; f.FreqMs == 0 && (f.Messages > 0 || f.Bytes > 0) {
+			base.Config.Flush.FreqMs = 5 // size trigger without frequency: known finding KF-C01-flushhold
+		}
+		dry := execCase(bin, base, false)
+		if dry.res == nil {
+			continue
+		}
+		a.c12Bases++
+		K := dry.res.Events
+		if K > 400 {
+			K = 400
+		}
+		var ks []int
+		if tier == "thorough" {
+			for k := 1; k <= K; k++ {
+				ks = append(ks, k)
+			}
+			a.c12FullyEnumerated++
+		} else {
+			for i := 0; i < 6 && K > 0; i++ {
+				ks = append(ks, 1+rs.Intn(K))
+			}
+		}
+		out = append(out, base.Clone()) // shutdown at the natural end of the workload is a close point too
+		for _, k := range ks {
+			for _, half := range []bool{false, true} {
+				c := base.Clone()
+				c.CloseAt = &cf.CloseAt{K: k, Half: half}
+				out = append(out, c)
+			}
+		}
+	}
+	return out
+}
+
+func init() {
+	specTweaks["C12"] = func(s *propSpec) {
+		s.level = "fault_enumeration"
+		s.rule = "a base case of one scenario family (producer, consumer, group, offset manager, client) is generated from VERIF_SEED and run once to count its model events K; then the same case is re-run with 'close everything, in the documented order, right after event k' for every k <= K (thorough) or 6 sampled k (quick), each at delta 0 and at half the fake-time gap to the next event; distinct = distinct observable trace; non-trivial = a fault fired or several application goroutines were active"
+	}
+}
